@@ -18,7 +18,7 @@ Atoms == IF Wide
          THEN { a, Id(<<"ns">>, "b"), Attr(a, "p"), Attr(Attr(a, "p"), "q"), Attr(Id(<<"ns">>, "a"), "p"), one, NullL, Lit("Float", "1.5"), BoolL("true"),
                 \* same value, different spelling: equal only if spelled alike
                 BoolL("TRUE"), Lit("Float", "1.50"), Lit("DateTime", "2020-02-29T12:00:00z"),
-                StrL(<<115>>), Lit("Geography", "POINT(1 2)"), Lit("Date", "2020-02-29"), Lit("Time", "12:00:00"),
+                StrL(<<115>>), StrL(<<97, 39, 39, 39, 39, 98>>), Lit("Geography", "POINT(1 2)"), Lit("Date", "2020-02-29"), Lit("Time", "12:00:00"),
                 Lit("DateTime", "2020-02-29T12:00:00Z"), Lit("Duration", "P1D"), Lit("GUID", "01234567-89ab-cdef-0123-456789abcdef"),
                 Coll(Id0("c"), "any", None), Call(Id0("now"), <<>>), Lst(<<Lst(<<one>>), a>>) }
          ELSE { a, one, Attr(a, "p") }
